@@ -431,9 +431,9 @@ def exec_pause(case, d):
     exhaustive = ks is None
     if ks is None:
         ks = list(range(1, T + 1))       # k = T: the first start() already completes the run
-        if len(ks) > 45:
+        if len(ks) > 30:
             rng = random.Random('ks/%s' % case.get('split_seed'))
-            ks = sorted(rng.sample(ks, 45))
+            ks = sorted(rng.sample(ks, 30))
             exhaustive = False
     plans = [[k] for k in ks]
     rng = random.Random('split/%s' % case.get('split_seed'))
@@ -526,14 +526,26 @@ def exec_pause(case, d):
     return out
 
 
+class _NotApplicable(Exception):
+    pass
+
+
 def _pause_refusals(sc, d, add, out):
     import contextlib
     import io
     from .env import VerifEnv
-    for mode in ('resume_first', 'start_twice', 'start_after_completion', 'start_after_paused_completion'):
+    for mode in ('resume_first', 'start_twice', 'start_after_completion', 'start_after_paused_completion', 'start_after_error'):
         env = VerifEnv(budget=S.serial_bound(sc) + 5)
+        bsc = sc
+        if mode == 'start_after_error':
+            # the first start() is aborted by a simulation error (an observation above the ingest-rate limit);
+            # the simulation has been started all the same, and a second start() must be refused
+            bsc = copy.deepcopy(sc)
+            bsc['obs'][0]['data_product_rate'] = bsc['hot']['max_ingest_rate'] + 1
+            bsc['hot']['capacity'] = max(bsc['hot']['capacity'], 10 * S.StepView(bsc).obs[bsc['obs'][0]['name']]['vol'] + 10)
+            bsc['cold']['capacity'] = max(bsc['cold']['capacity'], bsc['hot']['capacity'])
         with contextlib.redirect_stdout(io.StringIO()):
-            sim, fs = sut.build(sc, d, env, 'light')
+            sim, fs = sut.build(bsc, d, env, 'light')
 
             def state():
                 return (env.now, len(env._queue), sim.running, len(sim.monitor.df), len(sim.monitor.events),
@@ -552,6 +564,14 @@ def _pause_refusals(sc, d, add, out):
                 else:
                     if mode == 'start_twice':
                         sim.start(runtime=2)
+                    elif mode == 'start_after_error':
+                        try:
+                            sim.start()
+                            raise _NotApplicable()      # no error: nothing to test here
+                        except _NotApplicable:
+                            raise
+                        except Exception:
+                            pass
                     elif mode == 'start_after_completion':
                         sim.start()
                     else:
@@ -567,6 +587,9 @@ def _pause_refusals(sc, d, add, out):
                         add('second_start_not_refused', 'start() twice did not raise (%s)' % mode, site=mode)
                     except RuntimeError:
                         pass
+                    except Exception as e2:
+                        add('second_start_not_refused', 'second start() (%s) ran the simulation again: %s: %s' % (
+                            mode, type(e2).__name__, e2), site=mode)
                     if state() != s0:
                         add('refused_call_changed_state', 'second start: %s -> %s' % (s0, state()), site=mode)
                 out['faults']['F5:refusal'] = out['faults'].get('F5:refusal', 0) + 1
